@@ -7,6 +7,16 @@
                          the metadata query depends only on the 80 header bytes and the `size`
                          payload bytes the (accepted, host-order) header announces — so with
                          `size ≤ fragment_len − 80` it reads inside [buffer, buffer+fragment_len);
+  `gate_reads_80`, `gate_in_bounds`, `metadata_reads_declared`, `fragmentsToString_reads_declared`
+                         the header loop of decode / reconstruct (`gateBad fragLen`: header validation
+                         and `fragment_exceeds_length`) itself reads 80 bytes; a fragment that passes
+                         it has header + announced payload + announced backend metadata inside the
+                         declared `fragLen`; consequently the metadata query behind the forced checks
+                         and the whole fast path of decode (`fragments_to_string`) give the same
+                         answer on the buffers cut at `fragLen` — bytes behind the declared length are
+                         never consulted.  (The slow path hands the payload areas to the backend
+                         operation, an arbitrary function in the model, with the block size read from
+                         a gated header; what a backend reads is its contract, `DecodeSound.*_nocrash`.)
   `encode_function_of_instance`, `lookup_stable`
                          results are functions of (environment switch, backend, instance record,
                          arguments) and an instance record is not changed by any call on any other
@@ -81,6 +91,208 @@ theorem metadata_reads_bounded (f : Bytes) (n : Nat) (hn : 80 + fSize f ≤ n) (
     omega
   simp only [bne_self_eq_false, Bool.false_eq_true, if_false, hpay]
 
+/-! ### the declared fragment length bounds every read of decode / reconstruct -/
+
+theorem fSize_take (f : Bytes) (n : Nat) (h : 80 ≤ n) : fSize (f.take n) = fSize f := by
+  unfold fSize Hdr.offSize; exact rd32_take f n 4 (by omega)
+theorem fBmSize_take (f : Bytes) (n : Nat) (h : 80 ≤ n) : fBmSize (f.take n) = fBmSize f := by
+  unfold fBmSize Hdr.offBmSize; exact rd32_take f n 8 (by omega)
+theorem fMagic_take (f : Bytes) (n : Nat) (h : 80 ≤ n) : fMagic (f.take n) = fMagic f := by
+  unfold fMagic Hdr.offMagic; exact rd32_take f n 59 (by omega)
+theorem fIdx_take (f : Bytes) (n : Nat) (h : 80 ≤ n) : fIdx (f.take n) = fIdx f := by
+  unfold fIdx Hdr.offIdx; exact rd32_take f n 0 (by omega)
+theorem fOrig_take (f : Bytes) (n : Nat) (h : 80 ≤ n) : fOrig (f.take n) = fOrig f := by
+  unfold fOrig Hdr.offOrig; exact rd64_take f n 12 (by omega)
+
+/-- the whole test of the header loop of decode / reconstruct (header validation and the length
+    test) looks at the 80 header bytes only. -/
+theorem gate_reads_80 (f : Bytes) (fragLen n : Nat) (h : 80 ≤ n) :
+    gateBad fragLen (f.take n) = gateBad fragLen f := by
+  unfold gateBad fragExceedsLength
+  rw [header_reads_80 f n h, fSize_take f n h, fBmSize_take f n h]
+
+/-- what a fragment that passed the header loop guarantees: header, announced payload and announced
+    backend metadata lie inside the `fragLen` bytes the caller declared. -/
+theorem gate_in_bounds (f : Bytes) (fragLen : Nat) (hl : Hdr.size ≤ fragLen) (hg : gateBad fragLen f = false) :
+    Hdr.size + fSize f + fBmSize f ≤ fragLen := by
+  unfold gateBad fragExceedsLength at hg
+  simp only [Bool.or_eq_false_iff, decide_eq_false_iff_not] at hg
+  omega
+
+/-- … so the metadata query behind the forced checks (payload checksum over `size` bytes) reads
+    nothing beyond the declared length: bytes past `fragLen` do not influence it. -/
+theorem metadata_reads_declared (f : Bytes) (fragLen : Nat) (hl : Hdr.size ≤ fragLen)
+    (hg : gateBad fragLen f = false) (hm : fMagic f = magicC) :
+    getFragmentMetadata (f.take fragLen) = getFragmentMetadata f := by
+  have := gate_in_bounds f fragLen hl hg
+  exact metadata_reads_bounded f fragLen (by simp only [Hdr.size] at this; omega) hm
+
+theorem toI32_toNat_le (x : Nat) : (toI32 x).toNat ≤ x := by
+  unfold toI32
+  have := Nat.mod_le x (2 ^ 32)
+  simp only
+  split <;> omega
+
+theorem payloadSize_le (f : Bytes) : (getPayloadSize f).toNat ≤ fSize f := by
+  unfold getPayloadSize
+  split
+  · simp
+  · exact toI32_toNat_le _
+
+theorem getFragmentIdx_take (f : Bytes) (n : Nat) (h : 80 ≤ n) : getFragmentIdx (f.take n) = getFragmentIdx f := by
+  unfold getFragmentIdx; rw [fMagic_take f n h, fIdx_take f n h]
+theorem getPayloadSize_take (f : Bytes) (n : Nat) (h : 80 ≤ n) : getPayloadSize (f.take n) = getPayloadSize f := by
+  unfold getPayloadSize; rw [fMagic_take f n h, fSize_take f n h]
+theorem getOrigDataSize_take (f : Bytes) (n : Nat) (h : 80 ≤ n) : getOrigDataSize (f.take n) = getOrigDataSize f := by
+  unfold getOrigDataSize; rw [fMagic_take f n h, fOrig_take f n h]
+
+theorem payload_take (f : Bytes) (n c : Nat) (h : 80 + c ≤ n) :
+    (fPayload (f.take n)).take c = (fPayload f).take c := by
+  unfold fPayload Hdr.size
+  rw [List.drop_take, List.take_take]
+  congr 1
+  omega
+
+/-- the copy loop of `fragments_to_string` over fragments that passed the header loop. -/
+theorem f2sCopy_take (fragLen : Nat) (hl : Hdr.size ≤ fragLen) (gs : List Bytes)
+    (hg : ∀ g ∈ gs, gateBad fragLen g = false) (remaining : Nat) :
+    f2sCopy (gs.map (·.take fragLen)) remaining = f2sCopy gs remaining := by
+  have h80 : 80 ≤ fragLen := hl
+  induction gs generalizing remaining with
+  | nil => rfl
+  | cons g gs ih =>
+    simp only [List.map_cons, f2sCopy]
+    rw [getPayloadSize_take g fragLen h80]
+    have hb := gate_in_bounds g fragLen hl (hg g (by simp))
+    have hp := payloadSize_le g
+    simp only [Hdr.size] at hb
+    split
+    · rfl
+    · rw [ih (fun x hx => hg x (by simp [hx]))]
+      rw [payload_take g fragLen _ (by split <;> omega)]
+
+/-- state of the scan loop with every placed fragment cut at the declared length. -/
+def cutSt (n : Nat) (st : Except Int (Int × List (Option Bytes))) : Except Int (Int × List (Option Bytes)) :=
+  match st with
+  | .error e => .error e
+  | .ok (o, sl) => .ok (o, sl.map (Option.map (·.take n)))
+
+theorem f2sStep_take (k n : Nat) (h : 80 ≤ n) (st : Except Int (Int × List (Option Bytes))) (f : Bytes) :
+    f2sStep k (cutSt n st) (f.take n) = cutSt n (f2sStep k st f) := by
+  cases st with
+  | error e => rfl
+  | ok v =>
+    obtain ⟨orig, slots⟩ := v
+    simp only [cutSt, f2sStep, getFragmentIdx_take f n h, getPayloadSize_take f n h, getOrigDataSize_take f n h]
+    split
+    · rfl
+    · split
+      · rfl
+      · split
+        · rfl
+        · have hget : (slots.map (Option.map (·.take n))).getD (getFragmentIdx f).toNat none =
+              (slots.getD (getFragmentIdx f).toNat none).map (·.take n) := by
+            simp [List.getD_eq_getElem?_getD]
+            cases slots[(getFragmentIdx f).toNat]? <;> rfl
+          rw [hget]
+          cases hs : slots.getD (getFragmentIdx f).toNat none with
+          | some g => simp
+          | none => simp [List.map_set]
+
+
+theorem f2s_fold_take (k n : Nat) (h : 80 ≤ n) (fs : List Bytes) (st : Except Int (Int × List (Option Bytes))) :
+    (fs.map (·.take n)).foldl (f2sStep k) (cutSt n st) = cutSt n (fs.foldl (f2sStep k) st) := by
+  induction fs generalizing st with
+  | nil => rfl
+  | cons f fs ih =>
+    simp only [List.map_cons, List.foldl_cons]
+    rw [f2sStep_take k n h, ih]
+
+/-- the scan loop only ever places supplied fragments. -/
+theorem f2sStep_mem (k : Nat) (P : Bytes → Prop) (st : Except Int (Int × List (Option Bytes))) (f : Bytes)
+    (hf : P f) (hst : ∀ o sl, st = .ok (o, sl) → ∀ g, some g ∈ sl → P g) :
+    ∀ o sl, f2sStep k st f = .ok (o, sl) → ∀ g, some g ∈ sl → P g := by
+  intro o sl hs g hgm
+  cases st with
+  | error e => simp [f2sStep] at hs
+  | ok v =>
+    obtain ⟨orig, slots⟩ := v
+    have hold := hst orig slots rfl
+    unfold f2sStep at hs
+    simp only at hs
+    split at hs
+    · cases hs
+    · split at hs
+      · cases hs
+      · split at hs
+        · cases hs; exact hold g hgm
+        · split at hs
+          · cases hs; exact hold g hgm
+          · cases hs
+            rcases List.mem_or_eq_of_mem_set hgm with h | h
+            · exact hold g h
+            · cases h; exact hf
+
+theorem f2s_fold_mem (k : Nat) (P : Bytes → Prop) (fs : List Bytes) (hfs : ∀ f ∈ fs, P f)
+    (st : Except Int (Int × List (Option Bytes)))
+    (hst : ∀ o sl, st = .ok (o, sl) → ∀ g, some g ∈ sl → P g) :
+    ∀ o sl, fs.foldl (f2sStep k) st = .ok (o, sl) → ∀ g, some g ∈ sl → P g := by
+  induction fs generalizing st with
+  | nil => exact hst
+  | cons f fs ih =>
+    simp only [List.foldl_cons]
+    exact ih (fun x hx => hfs x (by simp [hx])) _ (f2sStep_mem k P st f (hfs f (by simp)) hst)
+
+/-- **the fast path of decode reads nothing beyond the declared length**: once every supplied
+    fragment has passed the header loop (`gateBad fragLen` false), `fragments_to_string` gives the
+    same answer on the buffers cut at `fragLen` bytes — whatever lies behind the declared length
+    (the next object in memory, in C) cannot influence the result. -/
+theorem fragmentsToString_reads_declared (k fragLen : Nat) (hl : Hdr.size ≤ fragLen) (frags : List Bytes)
+    (hg : frags.any (gateBad fragLen) = false) :
+    fragmentsToString k (frags.map (·.take fragLen)) = fragmentsToString k frags := by
+  have h80 : 80 ≤ fragLen := hl
+  have hall : ∀ f ∈ frags, gateBad fragLen f = false := by
+    intro f hf
+    cases hc : gateBad fragLen f with
+    | false => rfl
+    | true =>
+      have : frags.any (gateBad fragLen) = true := List.any_eq_true.mpr ⟨f, hf, hc⟩
+      rw [hg] at this; cases this
+  unfold fragmentsToString
+  rw [List.length_map]
+  split
+  · rfl
+  · have hfold : (frags.map (·.take fragLen)).foldl (f2sStep k) (.ok (-1, List.replicate k none)) =
+        cutSt fragLen (frags.foldl (f2sStep k) (.ok (-1, List.replicate k none))) := by
+      have := f2s_fold_take k fragLen h80 frags (.ok (-1, List.replicate k none))
+      simpa [cutSt] using this
+    rw [hfold]
+    have hinv := f2s_fold_mem k (fun g => gateBad fragLen g = false) frags hall
+      (.ok (-1, List.replicate k none)) (by
+        intro o sl h g hgm
+        cases h
+        simp at hgm)
+    cases hr : frags.foldl (f2sStep k) (.ok (-1, List.replicate k none)) with
+    | error e => rfl
+    | ok v =>
+      obtain ⟨orig, slots⟩ := v
+      have hinv' := hinv orig slots hr
+      simp only [cutSt]
+      have hany : (slots.map (Option.map (·.take fragLen))).any Option.isNone = slots.any Option.isNone := by
+        rw [List.any_map]
+        congr 1
+        funext x
+        cases x <;> rfl
+      have hfm : (slots.map (Option.map (·.take fragLen))).filterMap id =
+          (slots.filterMap id).map (·.take fragLen) := by
+        rw [List.filterMap_map, List.map_filterMap]
+        rfl
+      rw [hany, hfm, f2sCopy_take fragLen hl _ (by
+        intro g hgm
+        rw [List.mem_filterMap] at hgm
+        obtain ⟨x, hx, rfl⟩ := hgm
+        exact hinv' g hx)]
+
 /-- results depend on the instance record only … -/
 theorem encode_function_of_instance (env : Env) (be : Backend) (i₁ i₂ : Inst) (data : Bytes) (h : i₁ = i₂) :
     encode env be i₁ data = encode env be i₂ data := by rw [h]
@@ -119,7 +331,23 @@ example :
        (match getFragmentMetadata (f.take 84) with | .ok m => m.mismatch == 0 | .error _ => false)) = true := by
   decide +kernel
 
+/-- non-vacuity: the same 100-byte buffer passes the header loop for a declared length of 84 (not
+    for 83), and cutting it at 84 bytes does not change what the fast path returns. -/
+example :
+    (let i : Inst := { beId := 6, beVer := 0x010000, k := 1, m := 1, w := 32, ct := 2 }
+     let env : Env := { libver := 0x010604, legacy := false }
+     let f := (specHeader env i 0 4 4 [1, 2, 3, 4]).bytes ++ [1, 2, 3, 4] ++ List.replicate 16 0xAA
+     !gateBad 84 f && gateBad 83 f &&
+       (match fragmentsToString 1 [f], fragmentsToString 1 [f.take 84] with
+        | .ok a, .ok b => a == [1, 2, 3, 4] && b == [1, 2, 3, 4]
+        | _, _ => false)) = true := by
+  decide +kernel
+
 #print axioms header_reads_80
 #print axioms metadata_reads_bounded
+#print axioms gate_reads_80
+#print axioms gate_in_bounds
+#print axioms metadata_reads_declared
+#print axioms fragmentsToString_reads_declared
 #print axioms lookup_stable
 end LecProps.C15
